@@ -1,6 +1,7 @@
 //! hx_c30: C30 — the I/O scheduler returns exactly the requested bytes and always completes.
 //! `c30` is the driver; it re-executes itself as `worker` once per LANCE_MAX_IOP_SIZE value
 //! (lance-io reads that variable once per process) and merges the observations.
+mod filearm;
 mod queue;
 mod refimpl;
 mod store;
@@ -43,11 +44,14 @@ fn parent(args: &Args) -> i32 {
         Stream::new("issued", REQ, "chk_issued", "(N * N) * list range", "list range * (N * N)"),
         Stream::new("class", REQ, "chk_class", "(N * N) * list range", "bool"),
         Stream::new("encio", REQ, "chk_encio", "(N * N * N) * (N * N * N) * list range", "outcome (list bytes)"),
-        Stream::new("queue", REQ, "chk_queue", "(N * N) * list qev", "list qobs"),
+        Stream::new("queue", REQ, "chk_queue", "(N * N) * (N * N) * list qev", "list qobs"),
     ];
-    streams[0].shard = 120;
-    streams[3].shard = 120;
-    streams[4].shard = 100;
+    // coqc start-up (~10 s) dominates a shard; keep shards few and large
+    streams[0].shard = 500;
+    streams[1].shard = 1500;
+    streams[2].shard = 2000;
+    streams[3].shard = 500;
+    streams[4].shard = 300;
     for (i, mx) in mxs.iter().enumerate() {
         let txt = std::fs::read_to_string(args.out.join(format!("worker_{i}.json"))).unwrap();
         let v: Value = serde_json::from_str(&txt).unwrap();
